@@ -6,6 +6,8 @@ import MosnVerif.Model.FrameH2Err
 import MosnVerif.Model.FrameHpack
 import MosnVerif.Model.HpackEmit
 import MosnVerif.Model.H2Lock
+import MosnVerif.Model.DispatchCodec
+import MosnVerif.Model.PoolRecover
 /-! driver of C08 (malformed input contained): see `run` for the case kinds. Core Lean only. -/
 namespace MosnVerif.Drive.C08
 open MosnVerif.Drive MosnVerif.Model.Framing MosnVerif.Model.FrameBytes MosnVerif.Model.FrameChk MosnVerif.Model.KVBlock
@@ -195,6 +197,78 @@ def h2up (method frames : String) (impl : List String) : String :=
   | _ => "E E bad-case"
 end h2up
 
+
+section disp
+open MosnVerif.Model.DispatchLoop
+
+def stepTok : Out → String
+  | .needMore => "n"
+  | .frame n => s!"f{n}"
+  | .error k => s!"e{k}"
+  | .oob => "p"
+
+def parseStep (s : String) : Option DStep :=
+  if s == "n" then some .needMore
+  else if s.startsWith "f" then (s.drop 1).toNat?.map DStep.frame
+  else if s.startsWith "e" then (s.drop 1).toNat?.map DStep.error
+  else none
+
+def drainOf : DStep → Nat
+  | .frame n => n
+  | .error k => k
+  | .badType n => n
+  | .needMore => 0
+
+/-- walk the buffer along the recorded Decode calls: every step must be what the checked-access decoder of the protocol
+answers on the bytes still buffered (for one of the two payload oracles); yields the script (bytes buffered, step) -/
+def walk (c1 c0 : Bytes → Res) : Bytes → List String → Option (List (Nat × DStep))
+  | _, [] => some []
+  | b, t :: r =>
+    if [stepTok (c1 b).out, stepTok (c0 b).out].contains t then
+      match parseStep t with
+      | some st => (walk c1 c0 (b.drop (drainOf st)) r).map ((b.length, st) :: ·)
+      | none => none
+    else none
+
+/-- `disp <proto> <bytes> => <ret|runaway|hang|panic> <steps> <left>`: ONE real `streamConn.Dispatch` on a buffer holding
+exactly these bytes, Decode calls recorded by the codec wrapper.  Model: the regenerated loop (`xPolicy`) run over the
+script of recorded decoder answers (each checked against the decoder model) must make exactly as many Decode calls and
+leave as many bytes.  Predicate (independent of the regenerated loop): Dispatch returned; at most `|bytes|+1` Decode
+calls; every call but the last delivered a frame that drained something (nothing is decoded behind a failure or a
+need-more); the buffer did not grow. -/
+def disp (proto bytes : String) (impl : List String) : String :=
+  match chkOf proto (fun _ => true), chkOf proto (fun _ => false), unhex bytes, impl with
+  | some c1, some c0, some b, [outcome, trace, left] =>
+    let steps := if trace == "-" then [] else trace.splitOn ","
+    let frameOk (t : String) : Bool := t.startsWith "f" && ((t.drop 1).toNat?.getD 0) > 0
+    let spec := outcome == "ret" && decide (steps.length ≤ b.length + 1) && steps.dropLast.all frameOk &&
+      (match left.toNat? with | some l => decide (l ≤ b.length) | none => false)
+    match walk c1 c0 b steps with
+    | none => s!"D {if spec then "S" else "V"} step-not-of-the-decoder-model"
+    | some script =>
+      match run xPolicy (scripted script) (b.length + 1) ⟨b, 0⟩ with
+      | none => s!"D {if spec then "S" else "V"} model-loop-out-of-fuel"
+      | some c' =>
+        let agree := outcome == "ret" && c'.calls == steps.length && some c'.buf.length == left.toNat?
+        s!"{if agree then "A" else "D"} {if spec then "S" else "V"} ret calls={c'.calls} left={c'.buf.length}"
+  | _, _, _, _ => "E E bad-case"
+end disp
+
+section pool
+open MosnVerif.Model.PoolRecover
+
+/-- `pool <api> <w><s> => survived | blocked | died`: a panicking task through the real worker pool in the given state
+(w: a worker parked on p.work, s: a free worker slot), probed in a child process.  Model: the regenerated select tables.
+Predicate: the process survived. -/
+def pool (api st : String) (impl : List String) : String :=
+  match apiOf api, st.toList, impl with
+  | some sels, [w, s], [o] =>
+    let v := dedup (verdicts sels ⟨w == '1', s == '1'⟩)
+    let spec := o == "survived" || o == "blocked"
+    s!"{if v.contains o then "A" else "D"} {if spec then "S" else "V"} {joinWith "|" v}"
+  | _, _, _ => "E E bad-case"
+end pool
+
 def run (caseToks impl : List String) : String :=
   match caseToks with
   | ["dec", proto, bytes] => dec proto bytes impl
@@ -203,6 +277,8 @@ def run (caseToks impl : List String) : String :=
   | ["hpack", mx, bytes] => hpackK mx bytes impl
   | ["hpackx", mx, blocks] => hpackX mx blocks impl
   | ["h2up", method, frames] => h2up method frames impl
+  | ["disp", proto, bytes] => disp proto bytes impl
+  | ["pool", api, st] => pool api st impl
   | ["contain", _, _] =>
     -- containment run (support): the probe client must have been answered after this malformed connection
     (match impl with
